@@ -14,6 +14,7 @@ import HealSparse.Model.Healpix
 import HealSparse.Props.C01
 import HealSparse.Props.C02
 import HealSparse.Props.C04
+import HealSparse.Lemmas.ApiHealpixRT
 namespace HS
 namespace C16
 
@@ -92,5 +93,565 @@ theorem interp_rule (vc : VCfg V) (nbrs : List (V × W)) (allowPartial : Bool) :
 example : (convertHealpix (V := Int) ⟨3, 1⟩ ⟨-1, fun x => x != -1⟩ #[-1, -1, -1, -1, 7, -1] (· != -1)).sp
     = #[-1, -1, 7, -1] := by decide +kernel
 
+/-! ## C16 at the API level
+
+The HEALPix interchange of concrete map objects (Model/ApiHealpix.lean): the constructor from a
+dense array, `generate_healpix_map`, HEALPix-format files and RING addressing.  Helpers:
+Lemmas/ApiHealpixRT.lean.  The RING ↔ NEST permutation is an INPUT (tables from hpgeom on the
+protocol line): every statement is for ANY pair of mutually inverse tables.
+
+ (1) import `apiFromHealpix`: raises (always `ValueError`) exactly in the cases of
+     `api_from_error_iff`; otherwise the map is `Ok`, has the requested orders / dtype / sentinel,
+     holds `hp[p]` at every SELECTED pixel — `hp[p] > UNSEEN`, a STRICT comparison with
+     `hpgeom.UNSEEN` as float32 for a float32 array and as float64 otherwise — and ITS OWN sentinel
+     elsewhere (any sentinel); a pixel is valid iff it is selected and differs from the sentinel;
+     the coverage is the set of coverage pixels holding a SELECTED pixel (for an integer array:
+     every coverage pixel, since every integer exceeds UNSEEN) — `api_from_ok`, `api_from_valid`.
+ (2) export `apiGenerateHealpix`: the pipeline `api_gen_eq` (single-field map of a record map,
+     exactness test, optional `degrade`, export); the exported array holds the value at every valid
+     pixel and UNSEEN of the OUTPUT dtype elsewhere (integers are exported as float64, float32 as
+     float32), whatever the map's sentinel; a boolean map is filled with ITS sentinel (`False`
+     unless the map was made with `sentinel=True`); RING = NEST through the permutation.
+ (3) round trips: `api_gen_from` / `api_gen_from_id` and `api_from_gen` / `api_from_gen_float`.
+     What is lost: entries below UNSEEN or equal to a non-UNSEEN sentinel; allocated coverage
+     pixels without valid pixels; the integer dtype (exported as float64).
+ (4) files: explicit write then read = `rehouse` (`api_hpx_round_trip`) EXCEPT for a map without
+     valid pixels, whose file cannot be read (`IndexError`); implicit files = the constructor on
+     the (reordered) column; an implicit file with an INTEGER column can never be read
+     (`ValueError`).  The model stops at the decoded columns: F55 (astropy stores int8 columns as
+     FITS logicals) lies below it.
+ (5) addressing by RING numbers = NEST addressing through the tables (`api_get_ring`,
+     `api_update_ring`); the driver receives the NEST numbers on the line (`pix=`), the `ring=`
+     numbers are only used on the real side; the inverse table the driver computes for the RING
+     export is the inverse (`api_inv_table`).
+-/
+
+open ApiHealpixRT
+
+/-! ### (1) import -/
+
+/-- **import, rejections** -/
+theorem api_from_error_iff (covord spord : Nat) (dt : DT) (sentinel : Option Val) (hp : List Val)
+    (sentIsPyInt : Bool) :
+    (∃ e, apiFromHealpix covord spord dt sentinel hp sentIsPyInt = .error e) ↔
+      (spord < covord ∨ hp.length ≠ (cfgOf covord spord).npix ∨
+       (dt.isInt = true ∧ ¬ (sentinel.isSome = true ∧ sentIsPyInt = true)) ∨
+       (dt.isFlt = true ∧ sentinel.isSome = true ∧ sentIsPyInt = true) ∨
+       ∃ e, checkSentinel dt sentinel = .error e) :=
+  fromHp_error_iff covord spord dt sentinel hp sentIsPyInt
+
+/-- every rejection of the constructor is a `ValueError` -/
+theorem api_from_error_value {covord spord : Nat} {dt : DT} {sentinel : Option Val} {hp : List Val}
+    {sentIsPyInt : Bool} {e : Err}
+    (h : apiFromHealpix covord spord dt sentinel hp sentIsPyInt = .error e) : e = .value :=
+  fromHp_error_value h
+
+/-- when `check_sentinel` accepts an explicit sentinel -/
+theorem api_checkSentinel_iff (dt : DT) (v : Val) :
+    (∃ s, checkSentinel dt (some v) = .ok s) ↔
+      (∃ b n e, dt = .flt b ∧ v = .num n e) ∨
+      (∃ b sg n, dt = .int b sg ∧ v = .num n 0 ∧ wrapInt b sg n = n) ∨
+      (∃ x, dt = .bool ∧ v = .bool x) :=
+  checkSentinel_some_ok_iff dt v
+
+/-- **import, the map built** -/
+theorem api_from_ok {covord spord : Nat} {dt : DT} {sentinel : Option Val} {hp : List Val}
+    {sentIsPyInt : Bool} {m : MapObj}
+    (h : apiFromHealpix covord spord dt sentinel hp sentIsPyInt = .ok m) :
+    m.covord = covord ∧ m.spord = spord ∧ m.kind = .plain dt ∧
+    m.sent = sentinel.getD dt.defaultSentinel ∧ m.view = none ∧ m.Ok ∧
+    hp.length = m.npix ∧
+    (∀ p (hlt : p < hp.length), m.abs p = if hpSel dt hp[p] = true then hp[p] else m.sent) ∧
+    (∀ k, k < m.c.ncov → (covered m.c m.st k = true ↔
+      ∃ p, ∃ hlt : p < hp.length, hpSel dt hp[p] = true ∧ p >>> m.c.shift = k)) :=
+  fromHp_ok h
+
+/-- **import, validity**: a pixel is valid in the map iff its entry is selected (`> UNSEEN`) AND
+    differs from the map's sentinel -/
+theorem api_from_valid {covord spord : Nat} {dt : DT} {sentinel : Option Val} {hp : List Val}
+    {sentIsPyInt : Bool} {m : MapObj}
+    (h : apiFromHealpix covord spord dt sentinel hp sentIsPyInt = .ok m) (p : Nat)
+    (hlt : p < hp.length) :
+    m.vc.valid (m.abs p) = true ↔ (hpSel dt hp[p] = true ∧ hp[p] ≠ m.sent) := by
+  obtain ⟨_, _, hk, _, _, _, _, habs, _⟩ := fromHp_ok h
+  have hv : ∀ v, m.vc.valid v = (v != m.sent) := by
+    intro v; unfold MapObj.vc; rw [hk]; rfl
+  rw [hv, habs p hlt]
+  by_cases hs : hpSel dt hp[p] = true
+  · rw [if_pos hs]; simp [hs]
+  · rw [if_neg hs]; simp [hs]
+
+/-! ### (2) export -/
+
+/-- **export = single-field map, exactness test, optional degrade, export proper** -/
+theorem api_gen_eq (m : MapObj) (ordOut : Option Nat) (red : String) (key : Option Nat)
+    (perm : Option (Array Nat × Array Nat)) :
+    apiGenerateHealpix m ordOut red key perm = genSpec m ordOut red key perm :=
+  apiGenerateHealpix_eq m ordOut red key perm
+
+/-- **export, NEST** -/
+theorem api_export_nest {s : MapObj} (hs : s.Ok) :
+    ∃ l, exportFull s none = .ok l ∧ l.length = s.npix ∧
+      ∀ p (hlt : p < l.length), l[p] = if s.vc.valid (s.abs p) = true then s.abs p else genFill s :=
+  exportFull_nest hs.1 hs.2.1.blankInvalid
+
+/-- **export, RING**, through any pair of mutually inverse tables -/
+theorem api_export_ring {s : MapObj} (hs : s.Ok) (n2r r2n : Array Nat)
+    (hinv1 : ∀ p, p < s.npix → rd r2n (rd n2r p 0) 0 = p)
+    (hinv2 : ∀ r, r < s.npix → rd n2r (rd r2n r 0) 0 = r)
+    (hr1 : ∀ p, p < s.npix → rd n2r p 0 < s.npix) (hr2 : ∀ r, r < s.npix → rd r2n r 0 < s.npix) :
+    ∃ ln lr, exportFull s none = .ok ln ∧ exportFull s (some (n2r, r2n)) = .ok lr ∧
+      ln.length = s.npix ∧ lr.length = s.npix ∧
+      ∀ r, r < s.npix → lr[r]? = ln[rd r2n r 0]? :=
+  exportFull_ring_nest hs.1 hs.2.1.blankInvalid n2r r2n hinv1 hinv2 hr1 hr2
+
+/-- **what a successful export did** -/
+theorem api_gen_ok {m : MapObj} (hm : m.Ok) {ordOut : Option Nat} {red : String} {key : Option Nat}
+    {perm : Option (Array Nat × Array Nat)} {l : List Val}
+    (h : apiGenerateHealpix m ordOut red key perm = .ok l) :
+    ∃ single s, genSingle m key = .ok single ∧ single.Ok ∧ cellsFitF64 single.st.sp = true ∧
+      ((ordOut.getD m.spord = m.spord ∧ s = single) ∨
+       (ordOut.getD m.spord < m.spord ∧ apiDegrade single (ordOut.getD m.spord) red none = .ok s)) ∧
+      s.Ok ∧ exportFull s perm = .ok l :=
+  gen_ok hm h
+
+/-- **export at the map's own resolution** (plain and bit-packed maps): never rejected, unless a
+    cell is not exactly representable (`inexact`: no claim) -/
+theorem api_gen_full {m : MapObj} (hk : ∀ n, m.kind ≠ .wide n) (hr : ∀ fs pr, m.kind ≠ .recd fs pr)
+    {ordOut : Option Nat} (ho : ordOut.getD m.spord = m.spord) (red : String) (key : Option Nat)
+    (perm : Option (Array Nat × Array Nat)) :
+    apiGenerateHealpix m ordOut red key perm =
+      if cellsFitF64 m.st.sp = true then exportFull m perm else .error .inexact :=
+  gen_full_eq hk hr ho red key perm
+
+/-- the fill value of the export of a numeric map is UNSEEN of the output dtype, whatever the
+    map's sentinel; of a boolean map, the map's sentinel -/
+theorem api_gen_fill (m : MapObj) :
+    (∀ b sg, m.kind = .plain (.int b sg) → genFill m = unseenOf (.flt 64)) ∧
+    (∀ b, m.kind = .plain (.flt b) → genFill m = unseenOf (.flt b)) ∧
+    (m.kind = .plain .bool → genFill m = m.sent) ∧ (m.kind = .packed → genFill m = m.sent) := by
+  refine ⟨?_, ?_, ?_, ?_⟩ <;> intros <;> unfold genFill <;> simp [*]
+
+
+/-! ### (3) round trips -/
+
+/-- **array → map → array** -/
+theorem api_gen_from {covord spord : Nat} {dt : DT} {sentinel : Option Val} {hp : List Val}
+    {b : Bool} {m : MapObj} (h : apiFromHealpix covord spord dt sentinel hp b = .ok m)
+    (hdt : dt ≠ .bool) (red : String) (key : Option Nat) :
+    ∃ l, exportFull m none = .ok l ∧
+      apiGenerateHealpix m none red key none
+        = (if cellsFitF64 m.st.sp = true then .ok l else .error .inexact) ∧
+      l.length = hp.length ∧
+      ∀ p (h1 : p < hp.length) (h2 : p < l.length),
+        l[p] = if hpSel dt hp[p] = true ∧ hp[p] ≠ m.sent then hp[p] else unseenOf dt :=
+  gen_from h hdt red key
+
+/-- **array → map → array is the identity** on float arrays whose entries are all `> UNSEEN` or
+    UNSEEN itself, imported with the default sentinel -/
+theorem api_gen_from_id {covord spord bits : Nat} {hp : List Val} {b : Bool} {m : MapObj}
+    (h : apiFromHealpix covord spord (.flt bits) none hp b = .ok m)
+    (hhp : ∀ v ∈ hp, hpSel (.flt bits) v = true ∨ v = unseenOf (.flt bits))
+    (red : String) (key : Option Nat) :
+    apiGenerateHealpix m none red key none
+      = (if cellsFitF64 m.st.sp = true then .ok hp else .error .inexact) :=
+  gen_from_id h hhp red key
+
+/-- **map → array → map** (numeric maps; the re-import has the float type of the export) -/
+theorem api_from_gen {m : MapObj} (hm : m.Ok) {dt : DT} (hk : m.kind = .plain dt) (hdt : dt ≠ .bool)
+    {l : List Val} (hl : exportFull m none = .ok l) {S : Option Val} {b : Bool} {m' : MapObj}
+    (h : apiFromHealpix m.covord m.spord (auxDT dt) S l b = .ok m') :
+    m'.covord = m.covord ∧ m'.spord = m.spord ∧ m'.kind = .plain (auxDT dt) ∧
+    m'.sent = S.getD (unseenOf dt) ∧ m'.Ok ∧
+    (∀ p, p < m.npix → m'.abs p =
+      if m.vc.valid (m.abs p) = true ∧ hpSel dt (m.abs p) = true then m.abs p else m'.sent) ∧
+    (∀ k, k < m'.c.ncov → (covered m'.c m'.st k = true ↔
+      ∃ p, p < m.npix ∧ m.vc.valid (m.abs p) = true ∧ hpSel dt (m.abs p) = true ∧
+        p >>> m'.c.shift = k)) :=
+  from_gen hm hk hdt hl h
+
+/-- the re-import with the default sentinel always succeeds -/
+theorem api_from_gen_ok {m : MapObj} (hm : m.Ok) {l : List Val} (hl : exportFull m none = .ok l)
+    (dt : DT) : ∃ m', apiFromHealpix m.covord m.spord (auxDT dt) none l false = .ok m' := by
+  obtain ⟨l0, h0, hlen, _⟩ := exportFull_nest hm.1 hm.2.1.blankInvalid
+  rw [hl] at h0; cases h0
+  exact from_gen_ok hm.1.1 hlen dt
+
+/-- **map → array → map preserves a float map** re-imported with its own sentinel, when every
+    valid value lies above UNSEEN (PARTIAL: `below_unseen_lost`) -/
+theorem api_from_gen_float_partial {m : MapObj} (hm : m.Ok) {bits : Nat}
+    (hk : m.kind = .plain (.flt bits)) {l : List Val} (hl : exportFull m none = .ok l) {m' : MapObj}
+    (h : apiFromHealpix m.covord m.spord (.flt bits) (some m.sent) l false = .ok m')
+    (hgt : ∀ p, p < m.npix → m.vc.valid (m.abs p) = true → hpSel (.flt bits) (m.abs p) = true) :
+    m'.covord = m.covord ∧ m'.spord = m.spord ∧ m'.kind = m.kind ∧ m'.sent = m.sent ∧ m'.Ok ∧
+    (∀ p, p < m.npix → m'.abs p = m.abs p) ∧
+    (∀ k, k < m'.c.ncov → (covered m'.c m'.st k = true ↔
+      ∃ p, p < m.npix ∧ m.vc.valid (m.abs p) = true ∧ p >>> m'.c.shift = k)) :=
+  from_gen_float hm hk hl h hgt
+
+/-! ### (4) HEALPix-format files -/
+
+/-- **explicit write** -/
+theorem api_hpx_write {m : MapObj} (hm : m.Ok) :
+    apiWriteHealpix m =
+      match m.kind with
+      | .recd _ _ => .error .notImpl
+      | .wide _ => .error .type
+      | .packed => .ok (.explicit m.spord .bool m.sent (validList m) ((validList m).map m.abs))
+      | .plain dt => .ok (.explicit m.spord dt m.sent (validList m) ((validList m).map m.abs)) :=
+  write_eq hm.1 hm.2.1.blankInvalid
+
+/-- the pixel column of the written file: the valid pixels, each once -/
+theorem api_hpx_write_pixels {m : MapObj} (hm : m.Ok) :
+    (validList m).Nodup ∧ ∀ p, p ∈ validList m ↔ p < m.npix ∧ m.vc.valid (m.abs p) = true :=
+  ⟨nodup_validList hm.1 hm.2.1.blankInvalid, mem_validList hm.1 hm.2.1.blankInvalid⟩
+
+/-- **explicit write then read = re-housing** (plain maps), or `IndexError` for a map without
+    valid pixels; the map read is the map re-housed at the requested coverage order
+    (`ApiDegrade.Rehoused`: same sparse order, kind and sentinel, the map's value at every valid
+    pixel and the sentinel elsewhere, coverage = the coverage pixels holding a valid pixel) -/
+theorem api_hpx_round_trip {m : MapObj} (hm : m.Ok) {dt : DT} (hk : m.kind = .plain dt) (co : Nat)
+    (r2n : Option (Array Nat)) :
+    ∃ f, apiWriteHealpix m = .ok f ∧
+      apiReadHealpix f co r2n
+        = (if (validList m).isEmpty = true then .error .index else rehouse m co) ∧
+      ∀ m1, apiReadHealpix f co r2n = .ok m1 → ApiDegrade.Rehoused m m1 co := by
+  have hv := hm.2.1.blankInvalid
+  refine ⟨_, by rw [write_eq hm.1 hv, hk], read_write_plain hm.1 hv hk co r2n, ?_⟩
+  intro m1 h1
+  rw [read_write_plain hm.1 hv hk co r2n] at h1
+  split at h1
+  · cases h1
+  · exact ApiDegrade.rehouse_ok hm.1 hv h1
+
+/-- **explicit write then read, content** (plain AND bit-packed maps; a bit-packed map comes back
+    as a plain boolean map) -/
+theorem api_hpx_read_write {m : MapObj} (hm : m.Ok) {dt : DT} {co : Nat}
+    {r2n : Option (Array Nat)} {m1 : MapObj}
+    (h : apiReadHealpix (.explicit m.spord dt m.sent (validList m) ((validList m).map m.abs)) co r2n
+      = .ok m1) :
+    co ≤ m.spord ∧ m1.covord = co ∧ m1.spord = m.spord ∧ m1.kind = .plain dt ∧ m1.sent = m.sent ∧
+    m1.Ok ∧ m1.npix = m.npix ∧
+    (∀ p, p < m.npix → m1.abs p = if m.vc.valid (m.abs p) = true then m.abs p else m.sent) ∧
+    (∀ k, k < m1.c.ncov → (covered m1.c m1.st k = true ↔
+      ∃ p, p < m.npix ∧ m.vc.valid (m.abs p) = true ∧ p >>> m1.c.shift = k)) :=
+  read_write_content hm h
+
+/-- **FINDING (mirrored from the library)**: the explicit file of a map WITHOUT valid pixels is
+    written without complaint and cannot be read back (`IndexError`) -/
+theorem api_hpx_empty {m : MapObj} (hm : m.Ok) {dt : DT} (hk : m.kind = .plain dt)
+    (hempty : ∀ p, p < m.npix → m.vc.valid (m.abs p) = false) (co : Nat) (r2n : Option (Array Nat)) :
+    ∃ f, apiWriteHealpix m = .ok f ∧ apiReadHealpix f co r2n = .error .index := by
+  obtain ⟨f, hw, hr, _⟩ := api_hpx_round_trip hm hk co r2n
+  refine ⟨f, hw, ?_⟩
+  have : validList m = [] := by
+    apply List.eq_nil_iff_forall_not_mem.2
+    intro p hp
+    have := (mem_validList hm.1 hm.2.1.blankInvalid p).1 hp
+    rw [hempty p this.1] at this
+    cases this.2
+  rw [hr, this]
+  rfl
+
+/-- **reading any explicit file** with as many values as pixels -/
+theorem api_hpx_read_explicit {so : Nat} {dt : DT} {S : Val} {pix : List Nat} {vals : List Val}
+    {co : Nat} {r2n : Option (Array Nat)} {m : MapObj}
+    (h : apiReadHealpix (.explicit so dt S pix vals) co r2n = .ok m)
+    (hlen : vals.length = pix.length) :
+    co ≤ so ∧ m.covord = co ∧ m.spord = so ∧ m.kind = .plain dt ∧ m.sent = S ∧ m.view = none ∧
+    m.Ok ∧ pix ≠ [] ∧ pix.Nodup ∧ (∀ p ∈ pix, p < m.npix) ∧
+    vals.all (valMatchesKind (.plain dt)) = true ∧
+    (∀ p, p < m.npix → m.abs p = if p ∈ pix then colVal pix vals S p else S) ∧
+    (∀ k, k < m.c.ncov → covered m.c m.st k = pix.any (fun p => p >>> m.c.shift == k)) :=
+  readExplicit_ok h hlen
+
+/-- **implicit files**: reading = the constructor (default sentinel) on the column, reordered
+    with `ring_to_nest` for a RING file; entry `p` of the reordered column is the RING entry
+    `nest_to_ring p` for any pair of mutually inverse tables -/
+theorem api_hpx_implicit (so : Nat) (dt : DT) (vals : List Val) (co : Nat) (t n2r : Array Nat) :
+    (∀ r2n, apiReadHealpix (.implicit so dt false vals) co r2n = apiFromHealpix co so dt none vals) ∧
+    apiReadHealpix (.implicit so dt true vals) co (some t)
+      = apiFromHealpix co so dt none
+          (reorderRingToNest (fun i => rd t i 0) vals.toArray (.num 0 0)).toList ∧
+    ((∀ i, i < vals.length → rd n2r (rd t i 0) 0 = i) →
+     (∀ p, p < vals.length → rd t (rd n2r p 0) 0 = p) →
+     (∀ p, p < vals.length → rd n2r p 0 < vals.length) →
+      (reorderRingToNest (fun i => rd t i 0) vals.toArray (.num 0 0)).toList.length = vals.length ∧
+      ∀ p, p < vals.length →
+        (reorderRingToNest (fun i => rd t i 0) vals.toArray (.num 0 0)).toList[p]?
+          = vals[rd n2r p 0]?) :=
+  ⟨fun r2n => readImplicit_nest so dt vals co r2n, readImplicit_ring so dt vals co t,
+    fun h1 h2 h3 => reordered_getElem vals t n2r h1 h2 h3⟩
+
+/-- **FINDING (mirrored from the library)**: an implicit file with an INTEGER column can never be
+    read: the reader calls the constructor with the default (float) sentinel -/
+theorem api_hpx_implicit_int {so : Nat} {dt : DT} (hdt : dt.isInt = true) (vals : List Val)
+    (co : Nat) (ring : Bool) (t : Array Nat) :
+    apiReadHealpix (.implicit so dt ring vals) co (some t) = .error .value :=
+  readImplicit_int hdt vals co ring t
+
+/-! ### (5) addressing -/
+
+/-- **reading by RING numbers = NEST addressing through the tables** -/
+theorem api_get_ring (m : MapObj) (n2r r2n : Array Nat)
+    (hinv : ∀ p, p < m.npix → rd r2n (rd n2r p 0) 0 = p) (P : List Nat) (hP : ∀ p ∈ P, p < m.npix) :
+    apiGetRing m r2n (P.map fun p => rd n2r p 0) = apiGet m P :=
+  getRing_eq m n2r r2n hinv P hP
+
+/-- **writing by RING numbers = NEST addressing through the tables** -/
+theorem api_update_ring (m : MapObj) (op : String) (n2r r2n : Array Nat)
+    (hinv : ∀ p, p < m.npix → rd r2n (rd n2r p 0) 0 = p) (P : List Nat) (hP : ∀ p ∈ P, p < m.npix)
+    (vals : Option (List Val)) (single : Bool) :
+    apiUpdateRing m op r2n (P.map fun p => rd n2r p 0) vals single = apiUpdate m op P vals single :=
+  updateRing_eq m op n2r r2n hinv P hP vals single
+
+/-- the `ring_to_nest` table the driver computes from the `nest_to_ring` table on the line is the
+    inverse, for every permutation table -/
+theorem api_inv_table (n2r : List Nat) (g : Nat → Nat)
+    (h1 : ∀ p, p < n2r.length → g (rd n2r.toArray p 0) = p)
+    (h2 : ∀ r, r < n2r.length → rd n2r.toArray (g r) 0 = r)
+    (hg : ∀ r, r < n2r.length → g r < n2r.length) :
+    (invTable n2r).size = n2r.length ∧ ∀ r, r < n2r.length → rd (invTable n2r) r 0 = g r :=
+  invTable_spec n2r g h1 h2 hg
+
+/-- **the driver's RING export** (`genhp … nest=0 n2r=…`) = the NEST export permuted, for every
+    permutation table on the line -/
+theorem api_genhp_ring {m : MapObj} (hm : m.Ok) (n2r : List Nat) (g : Nat → Nat)
+    (hlen : n2r.length = m.npix)
+    (h1 : ∀ p, p < n2r.length → g (rd n2r.toArray p 0) = p)
+    (h2 : ∀ r, r < n2r.length → rd n2r.toArray (g r) 0 = r)
+    (hg : ∀ r, r < n2r.length → g r < n2r.length)
+    (hr : ∀ p, p < n2r.length → rd n2r.toArray p 0 < n2r.length) :
+    ∃ ln lr, exportFull m none = .ok ln ∧ exportFull m (some (n2r.toArray, invTable n2r)) = .ok lr ∧
+      ln.length = m.npix ∧ lr.length = m.npix ∧ ∀ r, r < m.npix → lr[r]? = ln[g r]? := by
+  obtain ⟨_, hinv⟩ := invTable_spec n2r g h1 h2 hg
+  obtain ⟨ln, lr, e1, e2, l1, l2, hx⟩ := exportFull_ring_nest hm.1 hm.2.1.blankInvalid n2r.toArray
+    (invTable n2r)
+    (fun p hp => by rw [hinv _ (hr p (hlen ▸ hp)), h1 p (hlen ▸ hp)])
+    (fun r hr' => by rw [hinv r (hlen ▸ hr'), h2 r (hlen ▸ hr')])
+    (fun p hp => by rw [← hlen]; exact hr p (hlen ▸ hp))
+    (fun r hr' => by rw [hinv r (hlen ▸ hr'), ← hlen]; exact hg r (hlen ▸ hr'))
+  refine ⟨ln, lr, e1, e2, l1, l2, ?_⟩
+  intro r hr'
+  rw [hx r hr', hinv r (hlen ▸ hr')]
+
+
+/-- the driver's `genhp … nest=0 n2r=…` line runs `apiGenerateHealpix` with the table on the line
+    and the inverse table it computes (`invTable`, correct by `api_inv_table`) -/
+theorem api_genhp_driver (w : World) (a : Args) (n : String) (rest : List String) (m : MapObj)
+    (hpos : a.pos = n :: rest) (hget : w.get? n = some m)
+    (hnb : ∀ fs pr i, m.kind = .recd fs pr → a.nat? "key" = some i →
+      (fs[i]? == some DT.bool) = false)
+    (hnest : (a.getD "nest" "1" == "1") = false) {n2r : List Nat}
+    (hpn : parseNats (a.getD "n2r" "_") = some n2r) :
+    opGenhp w a = (w, match apiGenerateHealpix m (a.nat? "ord") (a.getD "red" "mean") (a.nat? "key")
+        (some (n2r.toArray, invTable n2r)) with
+      | .ok l => showVals l
+      | .error e => errLine e) :=
+  opGenhp_ring_eq w a n rest m hpos hget hnb hnest hpn
+
+/-- the driver's `fromhp` line: a RING array (`nest=0`) is reordered with the `r2n` table on the
+    line, then the constructor runs on the NEST array -/
+theorem api_fromhp_driver (w : World) (a : Args) {dt : DT} {co so : Nat} {sent : Option Val}
+    {vals : List Val}
+    (hdt : (a.get? "dtype").bind parseDT = some dt) (hco : a.nat? "covord" = some co)
+    (hso : a.nat? "spord" = some so) (hs : optVal a "sentinel" = some sent)
+    (hv : parseVals (a.getD "vals" "_") = some vals) {nest : List Val}
+    (hn : ((a.getD "nest" "1" == "1") = true ∧ nest = vals) ∨
+      ((a.getD "nest" "1" == "1") = false ∧ ∃ t, parseNats (a.getD "r2n" "_") = some t ∧
+        nest = (reorderRingToNest (fun i => rd t.toArray i 0) vals.toArray (.num 0 0)).toList)) :
+    opFromhp w a =
+      match apiFromHealpix co so dt sent nest
+          (a.getD "senttype" (if dt.isInt then "int" else "flt") == "int") with
+      | .ok m => (w.bind (a.getD "r" "tmp") m, "ok")
+      | .error e => (w, errLine e) :=
+  opFromhp_eq w a hdt hco hso hs hv hn
+
+/-! ### concrete objects: findings, boundary cases, non-vacuity -/
+
+namespace ApiWitness
+
+def okMap (x : Except Err MapObj) : MapObj :=
+  match x with
+  | .ok m => m
+  | .error _ => WFApi.blankMap (.plain .bool) (.bool false)
+def isOk {α : Type} (x : Except Err α) : Bool := match x with | .ok _ => true | .error _ => false
+def errIs {α : Type} (x : Except Err α) (e : Err) : Bool :=
+  match x with | .error e' => decide (e' = e) | .ok _ => false
+def okIs (x : Except Err (List Val)) (l : List Val) : Bool :=
+  match x with | .ok l' => decide (l' = l) | .error _ => false
+
+/-- UNSEEN as float64 -/
+def U : Val := unseenOf (.flt 64)
+
+/-- a float64 array at `nside = 1` (12 pixels): observed 1.5, 0.0, −7 -/
+def hpF : List Val := [U, .num 3 1, U, .num 0 0, U, U, U, .num (-7) 0, U, U, U, U]
+/-- an int32 array with "sentinel" 0: observed 5 and 9 -/
+def hpI : List Val := [.num 5 0, .num 0 0, .num 0 0, .num 9 0, .num 0 0, .num 0 0, .num 0 0,
+  .num 0 0, .num 0 0, .num 0 0, .num 0 0, .num 0 0]
+
+/-- the float array imported with the default sentinel / with `sentinel=0.0` -/
+def mF : MapObj := okMap (apiFromHealpix 0 0 (.flt 64) none hpF)
+def mF0 : MapObj := okMap (apiFromHealpix 0 0 (.flt 64) (some (.num 0 0)) hpF false)
+/-- the integer array imported with `sentinel=0` -/
+def mI : MapObj := okMap (apiFromHealpix 0 0 (.int 32 true) (some (.num 0 0)) hpI)
+/-- an empty float64 map -/
+def mE : MapObj := okMap (apiMakeEmpty 0 1 (.plain (.flt 64)) none [])
+/-- a float64 map with a valid value BELOW UNSEEN (−2^101) -/
+def mLow : MapObj := okMap (do
+  let m ← apiMakeEmpty 0 0 (.plain (.flt 64)) none []
+  apiUpdate m "replace" [2, 5] (some [.num (-(2 ^ 101)) 0, .num 1 0]) false)
+/-- a boolean map made with `sentinel=True`, one pixel set to `False` -/
+def mBT : MapObj := okMap (do
+  let m ← apiMakeEmpty 0 0 (.plain .bool) (some (.bool true)) []
+  apiUpdate m "replace" [5] (some [.bool false]) true)
+/-- a bit-packed map -/
+def mP : MapObj := okMap (do
+  let m ← apiMakeEmpty 0 2 .packed none []
+  apiUpdate m "replace" [5, 6] (some [.bool true]) true)
+/-- a `nest_to_ring` table on 12 pixels (a 3-cycle and a swap) and its inverse -/
+def tN2R : List Nat := [1, 3, 2, 0, 4, 5, 6, 8, 7, 9, 10, 11]
+def tR2N : List Nat := [3, 0, 2, 1, 4, 5, 6, 8, 7, 9, 10, 11]
+
+theorem ex_ok : mF.Ok ∧ mF0.Ok ∧ mI.Ok ∧ mE.Ok ∧ mLow.Ok ∧ mBT.Ok ∧ mP.Ok := by decide +kernel
+
+/-- the imports behind `mF`, `mF0`, `mI` succeed -/
+theorem ex_from :
+    isOk (apiFromHealpix 0 0 (.flt 64) none hpF) = true ∧
+    isOk (apiFromHealpix 0 0 (.flt 64) (some (.num 0 0)) hpF false) = true ∧
+    isOk (apiFromHealpix 0 0 (.int 32 true) (some (.num 0 0)) hpI) = true ∧
+    -- integer array without an integer sentinel, float array with an integer sentinel
+    errIs (apiFromHealpix 0 0 (.int 32 true) none hpI) .value = true ∧
+    errIs (apiFromHealpix 0 0 (.flt 64) (some (.num 0 0)) hpF true) .value = true := by
+  decide +kernel
+
+/-- **any sentinel, not only UNSEEN** (the seeded defects C16a / C16b lived here): imported with
+    `sentinel=0.0` the unselected pixel 0 reads the map's sentinel `0.0`, the selected entry `0.0`
+    at pixel 3 is stored but not valid, and the export writes UNSEEN at both -/
+theorem sentinel_not_unseen :
+    mF0.abs 0 = .num 0 0 ∧ mF0.vc.valid (mF0.abs 3) = false ∧ mF0.abs 1 = .num 3 1 ∧
+    okIs (apiGenerateHealpix mF0 none "mean" none none)
+      [U, .num 3 1, U, U, U, U, U, .num (-7) 0, U, U, U, U] = true := by
+  decide +kernel
+
+/-- an integer array selects EVERY pixel (every integer exceeds UNSEEN): the map covers every
+    coverage pixel although only two pixels are valid; the export is float64 with UNSEEN at the
+    sentinel-valued pixels -/
+theorem int_import :
+    apiCovMask mI = List.replicate 12 true ∧
+    (List.range 12).filter (fun p => mI.vc.valid (mI.abs p)) = [0, 3] ∧
+    okIs (apiGenerateHealpix mI none "mean" none none)
+      [.num 5 0, U, U, .num 9 0, U, U, U, U, U, U, U, U] = true := by
+  decide +kernel
+
+/-- **FINDING (mirrored)**: the explicit file of an empty map is written and cannot be read -/
+theorem empty_map_file :
+    isOk (apiWriteHealpix mE) = true ∧
+    errIs (apiWriteHealpix mE >>= fun f => apiReadHealpix f 0 none) .index = true := by
+  decide +kernel
+
+/-- **FINDING (mirrored)**: an implicit file with an integer column cannot be read -/
+theorem implicit_int_file :
+    errIs (apiReadHealpix (.implicit 0 (.int 32 true) false hpI) 0 none) .value = true ∧
+    isOk (apiReadHealpix (.implicit 0 (.flt 64) false hpF) 0 none) = true := by
+  decide +kernel
+
+/-- boundary of `api_from_gen_float_partial`: a valid value below UNSEEN is exported and then
+    dropped by the re-import (the selection is `> UNSEEN`) -/
+theorem below_unseen_lost :
+    mLow.vc.valid (mLow.abs 2) = true ∧
+    okIs (apiGenerateHealpix mLow none "mean" none none)
+      [U, U, .num (-(2 ^ 101)) 0, U, U, .num 1 0, U, U, U, U, U, U] = true ∧
+    (okMap (apiFromHealpix 0 0 (.flt 64) none
+      [U, U, .num (-(2 ^ 101)) 0, U, U, .num 1 0, U, U, U, U, U, U])).abs 2 = U := by
+  decide +kernel
+
+/-- a boolean map is exported filled with ITS sentinel: `True` for a map made with
+    `sentinel=True` -/
+theorem bool_sentinel_true :
+    okIs (apiGenerateHealpix mBT none "mean" none none)
+      ((List.replicate 5 (.bool true)) ++ [.bool false] ++ List.replicate 6 (.bool true)) = true := by
+  decide +kernel
+
+/-- a bit-packed map comes back from its explicit file as a PLAIN boolean map -/
+theorem packed_file :
+    (okMap (apiWriteHealpix mP >>= fun f => apiReadHealpix f 0 none)).kind = .plain .bool ∧
+    (List.range 192).filter (fun p => (okMap (apiWriteHealpix mP >>= fun f => apiReadHealpix f 0 none)).abs p
+      == .bool true) = [5, 6] := by
+  decide +kernel
+
+/-- WHERE THE MODEL DEVIATES (not a library defect): the model's constructor accepts a BOOLEAN
+    array (and selects nothing: the map is empty), the real constructor raises `ValueError` for
+    every boolean array, whatever the sentinel ("Sentinel not a boolean" / "must be set to an
+    float value"); the generators never send one -/
+theorem bool_import_model :
+    isOk (apiFromHealpix 0 0 .bool none (List.replicate 12 (.bool true))) = true ∧
+    apiCovMask (okMap (apiFromHealpix 0 0 .bool none (List.replicate 12 (.bool true))))
+      = List.replicate 12 false := by
+  decide +kernel
+
+/-! #### the theorems applied -/
+
+/-- array → map → array is the identity on `hpF` -/
+example : apiGenerateHealpix mF none "mean" none none = .ok hpF := by
+  have h : apiFromHealpix 0 0 (.flt 64) none hpF = .ok mF := by
+    have := ex_from.1
+    unfold mF okMap
+    cases hx : apiFromHealpix 0 0 (.flt 64) none hpF with
+    | ok m => rfl
+    | error e => rw [hx] at this; cases this
+  have := api_gen_from_id h (by decide +kernel) "mean" none
+  rw [this, if_pos (by decide +kernel)]
+
+/-- explicit write then read of `mF0` at coverage order 0 is its re-housing, and succeeds -/
+example : ∃ f m1, apiWriteHealpix mF0 = .ok f ∧ apiReadHealpix f 0 none = .ok m1 ∧
+    rehouse mF0 0 = .ok m1 ∧ ApiDegrade.Rehoused mF0 m1 0 := by
+  obtain ⟨f, hw, hr, hreh⟩ := api_hpx_round_trip ex_ok.2.1 (dt := .flt 64) (by decide +kernel) 0 none
+  have hne : (validList mF0).isEmpty = false := by decide +kernel
+  rw [hne] at hr
+  simp only [Bool.false_eq_true, if_false] at hr
+  cases hx : rehouse mF0 0 with
+  | error e =>
+    exfalso
+    have : isOk (rehouse mF0 0) = true := by decide +kernel
+    rw [hx] at this; cases this
+  | ok m1 => exact ⟨f, m1, hw, by rw [hr, hx], rfl, hreh m1 (by rw [hr, hx])⟩
+
+/-- the RING export of `mI` through the tables `tN2R` / `tR2N` is the NEST export permuted -/
+example : ∃ ln lr, exportFull mI none = .ok ln ∧
+    exportFull mI (some (tN2R.toArray, tR2N.toArray)) = .ok lr ∧
+    ∀ r, r < 12 → lr[r]? = ln[rd tR2N.toArray r 0]? := by
+  obtain ⟨ln, lr, h1, h2, _, _, h5⟩ := api_export_ring ex_ok.2.2.1 tN2R.toArray tR2N.toArray
+    (by decide +kernel) (by decide +kernel) (by decide +kernel) (by decide +kernel)
+  exact ⟨ln, lr, h1, h2, h5⟩
+
+/-- the table the driver computes from `tN2R` is `tR2N` -/
+example : invTable tN2R = tR2N.toArray := by decide +kernel
+
+/-- reading `mI` by RING numbers -/
+example : apiGetRing mI tR2N.toArray ([0, 3, 7].map fun p => rd tN2R.toArray p 0) = apiGet mI [0, 3, 7] :=
+  api_get_ring mI tN2R.toArray tR2N.toArray (by decide +kernel) [0, 3, 7] (by decide +kernel)
+
+/-! #### protocol histories (driver level; evaluated, `#guard`) -/
+
+def replies (lines : List String) : List String :=
+  (lines.foldl (fun (acc : World × List String) l =>
+    let r := step acc.1 l; (r.1, acc.2 ++ [r.2])) ({}, [])).2
+
+-- import with sentinel 0.0, NEST export, RING export through a table, explicit file round trip
+#guard replies ["fromhp r=m covord=0 spord=0 dtype=f8 nest=1 sentinel=0 senttype=flt vals=-1637499999999999923489519697920,3^1,-1637499999999999923489519697920,0,-1637499999999999923489519697920,-1637499999999999923489519697920,-1637499999999999923489519697920,-7,-1637499999999999923489519697920,-1637499999999999923489519697920,-1637499999999999923489519697920,-1637499999999999923489519697920",
+    "get m pix=0,1,3,7", "genhp m nest=1",
+    "genhp m nest=0 n2r=1,3,2,0,4,5,6,8,7,9,10,11",
+    "hpxwrite m f=h1", "hpxread r=r f=h1 covord=0", "get r pix=0,1,3,7"]
+  == ["ok", "0,3^1,0,-7",
+      "-1637499999999999923489519697920,3^1,-1637499999999999923489519697920,-1637499999999999923489519697920,-1637499999999999923489519697920,-1637499999999999923489519697920,-1637499999999999923489519697920,-7,-1637499999999999923489519697920,-1637499999999999923489519697920,-1637499999999999923489519697920,-1637499999999999923489519697920",
+      "-1637499999999999923489519697920,-1637499999999999923489519697920,-1637499999999999923489519697920,3^1,-1637499999999999923489519697920,-1637499999999999923489519697920,-1637499999999999923489519697920,-1637499999999999923489519697920,-7,-1637499999999999923489519697920,-1637499999999999923489519697920,-1637499999999999923489519697920",
+      "ok", "ok", "0,3^1,0,-7"]
+-- the explicit file of an empty map cannot be read; an implicit integer file cannot be read
+#guard replies ["cfg m kind=plain dtype=f8 covord=0 spord=1", "hpxwrite m f=h1", "hpxread r=r f=h1 covord=0",
+    "hpximplicit f=h2 spord=0 dtype=i4 ordering=NESTED vals=5,0,0,9,0,0,0,0,0,0,0,0", "hpxread r=r f=h2 covord=0"]
+  == ["ok", "ok", "err IndexError", "ok", "err ValueError"]
+
+end ApiWitness
 end C16
 end HS
